@@ -209,7 +209,7 @@ func (g *Geometry) UnmarshalJSON(data []byte) error {
 		g.Geometries = nil
 	}
 
-	g.Type = g.Geometry().GeoJSONType()
+	g.Type = jg.Type
 
 	return nil
 }
@@ -280,7 +280,7 @@ func (g *Geometry) UnmarshalBSON(data []byte) error {
 		g.Geometries = nil
 	}
 
-	g.Type = g.Geometry().GeoJSONType()
+	g.Type = bg.Type
 
 	return nil
 }
